@@ -2,6 +2,7 @@ package props
 
 import (
 	"bytes"
+	"encoding/base64"
 	"fmt"
 	"math/rand"
 	"os"
@@ -12,6 +13,7 @@ import (
 	"time"
 
 	"github.com/mimecast/dtail/verifharness/internal/vlib"
+	"golang.org/x/crypto/ssh"
 )
 
 // C12 — the server applies exactly the filter and options the user specified.
@@ -257,7 +259,183 @@ func c12(r *vlib.Run) int {
 		c12Overlap(r, fl)
 	}
 	c12Multi(r, fl)
+	if fl != nil {
+		// own server with the hook trace on (attribution of the recorded command race)
+		if cfl, err := startFleet(r, "c12ch", 1, map[string]interface{}{"MaxConcurrentCats": 16, "MaxConnections": 64}, []string{"VERIF_TRACE=trace.jsonl"}, "error"); err == nil {
+			c12Chunked(r, cfl)
+			cfl.Stop()
+		} else {
+			r.Inconclusive("fleet-start")
+		}
+	}
 	return n / 2
+}
+
+// c12Chunked: the request of a real client, delivered to the server the way a
+// network may deliver it - cut into pieces at arbitrary byte positions. The
+// bytes are captured from a real dgrep (talking to a recording SSH server),
+// then replayed over a raw SSH session to the real server in 2-5 pieces. The
+// session asks for a large file and a small one (two commands, the large one
+// keeps the session busy while the rest of the bytes arrives); the output must
+// be the selection of both files, whatever the cut positions.
+func c12Chunked(r *vlib.Run, fl *fleet) {
+	n := r.N(24, 200)
+	rng := r.Rng("chunked")
+	hk := vlib.HostKey()
+	hkFile := r.Dir("c12chunked") + "/hostkey.pem"
+	os.WriteFile(hkFile, hk.PEM, 0600)
+	seeds := make([]int64, n)
+	for i := range seeds {
+		seeds[i] = rng.Int63()
+	}
+	srvDir := fl.Servers[0].Spec.Dir
+	vlib.Parallel(n, 6, func(i int) {
+		crng := rand.New(rand.NewSource(seeds[i]))
+		c := c12Gen(crng)
+		c.Plain, c.FinalNL = true, true
+		// big file: the small file's lines many times over
+		var big []string
+		for len(big) < 30000 {
+			big = append(big, c.Lines...)
+		}
+		p1 := filepath.Join(srvDir, fmt.Sprintf("chunked%d-big.log", i))
+		p2 := filepath.Join(srvDir, fmt.Sprintf("chunked%d-small.log", i))
+		os.WriteFile(p1, []byte(strings.Join(big, "\n")+"\n"), 0644)
+		os.WriteFile(p2, []byte(strings.Join(c.Lines, "\n")+"\n"), 0644)
+		defer os.Remove(p1)
+		defer os.Remove(p2)
+		// 1. capture what the real client sends
+		port := vlib.FreePort()
+		f, err := startFakeSSHD(r, fmt.Sprintf("c12ch-%d", i), []int{port}, []string{hkFile}, "", 400)
+		if err != nil {
+			r.Inconclusive("fakesshd")
+			return
+		}
+		args := []string{"--cfg", "none", "--key", fl.KeyFile, "--user", fl.User, "--servers", fmt.Sprintf("127.0.0.1:%d", port), "--trustAllHosts",
+			"--logger", "stdout", "--logLevel", "error", "--plain", "--files", p1 + "," + p2, "--regex", c.Pattern}
+		if c.Invert {
+			args = append(args, "--invert")
+		}
+		if c.B > 0 {
+			args = append(args, "--before", fmt.Sprint(c.B))
+		}
+		if c.A > 0 {
+			args = append(args, "--after", fmt.Sprint(c.A))
+		}
+		if c.M > 0 {
+			args = append(args, "--max", fmt.Sprint(c.M))
+		}
+		home, _ := r.ClientHome(fmt.Sprintf("c12ch-%d", i), fl.Key)
+		vlib.RunCmd(vlib.Cmd{Path: r.Bin("dgrep"), Args: args, Env: []string{"HOME=" + home}, Dir: home, Watchdog: 60 * time.Second})
+		os.RemoveAll(home)
+		var stream []byte
+		for _, e := range f.Events() {
+			if e.Ev == "data" && e.Conn == 0 {
+				b, _ := base64.StdEncoding.DecodeString(e.Data)
+				stream = append(stream, b...)
+			}
+		}
+		f.Stop()
+		if bytes.Count(stream, []byte(";")) < 2 {
+			r.Inconclusive("client-request-not-captured")
+			return
+		}
+		// 2. replay in pieces; at least one cut inside the last command
+		lastStart := bytes.LastIndexByte(stream[:len(stream)-1], ';') + 1
+		cuts := map[int]bool{lastStart + 1 + crng.Intn(len(stream)-lastStart-1): true}
+		for k := crng.Intn(4); k > 0; k-- {
+			cuts[1+crng.Intn(len(stream)-1)] = true
+		}
+		client, _, out, in, err := trySession(fl.Servers[0].Addr(), fl.User, []ssh.AuthMethod{ssh.PublicKeys(fl.Key.Signer)}, "")
+		if err != nil {
+			r.Inconclusive("raw-session")
+			return
+		}
+		defer client.Close()
+		got := make(chan []byte, 1)
+		go func() {
+			var buf bytes.Buffer
+			b := make([]byte, 65536)
+			deadline := time.Now().Add(60 * time.Second)
+			for time.Now().Before(deadline) {
+				n, err := out.Read(b)
+				buf.Write(b[:n])
+				if err != nil || bytes.Contains(buf.Bytes(), []byte(".syn close connection")) {
+					break
+				}
+			}
+			got <- buf.Bytes()
+		}()
+		prev := 0
+		pieces := 0
+		for pos := 1; pos <= len(stream); pos++ {
+			if cuts[pos] || pos == len(stream) {
+				in.Write(stream[prev:pos])
+				prev = pos
+				pieces++
+				time.Sleep(2 * time.Millisecond)
+			}
+		}
+		var raw []byte
+		select {
+		case raw = <-got:
+		case <-time.After(70 * time.Second):
+			r.Inconclusive("raw-session-read")
+			return
+		}
+		in.Write([]byte(encodeCommand(".ack close connection")))
+		r.Eval(fmt.Sprintf("chunked|%s|%v|%d|%d|%d|%d", c.Pattern, c.Invert, c.B, c.A, c.M, pieces))
+		r.Count("requests_replayed_in_pieces", 1)
+		r.Count("request_pieces_sent", pieces)
+		gotCount := map[string]int{}
+		nGot := 0
+		for _, m := range bytes.Split(raw, []byte{0xAC}) {
+			if len(m) == 0 || m[0] == '.' {
+				continue
+			}
+			gotCount[strings.TrimSuffix(string(m), "\n")]++
+			nGot++
+		}
+		wantCount := map[string]int{}
+		nWant := 0
+		for _, lines := range [][]string{big, c.Lines} {
+			sel, _ := selection(lines, c.Pattern, c.Invert)
+			for _, w := range grepModel(sel, c.B, c.A, c.M) {
+				wantCount[lines[w]]++
+				nWant++
+			}
+		}
+		same := nGot == nWant
+		for l, cnt := range wantCount {
+			if gotCount[l] != cnt {
+				same = false
+			}
+		}
+		if !same {
+			// the recorded command race (c02.cmd-race): the session began to shut
+			// down before its second command was received
+			hid := ""
+			evs := readTrace(filepath.Join(srvDir, "trace.jsonl"))
+			for _, e := range evs {
+				if e.Name == "srv.lim.acq" && len(e.KV) > 2 && e.KV[2] == p1 {
+					hid = e.KV[0]
+				}
+			}
+			if hid != "" && cmdRaceInTrace(evs, hid, 2) {
+				r.Count("chunked_sessions_cmd_race_not_judged", 1)
+				return
+			}
+			var extra []string
+			for l, cnt := range gotCount {
+				if wantCount[l] != cnt && len(extra) < 6 {
+					extra = append(extra, fmt.Sprintf("%q x%d (want x%d)", vlib.Trunc(l, 120), cnt, wantCount[l]))
+				}
+			}
+			r.Violation("selection-differs-when-the-request-arrives-in-pieces", map[string]interface{}{"pattern": c.Pattern, "invert": c.Invert,
+				"before": c.B, "after": c.A, "max": c.M, "request_bytes": len(stream), "pieces": pieces, "cut_positions": fmt.Sprint(cuts),
+				"request": vlib.Trunc(string(stream), 600), "got_lines": nGot, "want_lines": nWant, "differing": extra})
+		}
+	})
 }
 
 // c12Multi: one session with several read commands (--files a,b): the options
@@ -308,19 +486,7 @@ func c12Multi(r *vlib.Run, fl *fleet) {
 			r.Inconclusive("dgrep-watchdog")
 			return
 		}
-		firstShutdown, lastRecv, recvs := -1, -1, 0
-		for k, e := range readTrace(traceFile) {
-			switch e.Name {
-			case "srv.shutdown.begin":
-				if firstShutdown < 0 {
-					firstShutdown = k
-				}
-			case "srv.cmd.recv":
-				lastRecv = k
-				recvs++
-			}
-		}
-		cmdRace := firstShutdown >= 0 && (lastRecv > firstShutdown || recvs < 2)
+		cmdRace := cmdRaceInTrace(readTrace(traceFile), "", 2)
 		r.Eval(fmt.Sprintf("multi|%s|%v|%d|%d|%d|%v", c.Pattern, c.Invert, c.B, c.A, c.M, c.SSH))
 		r.Count("multi_command_sessions", 1)
 		sel, _ := selection(c.Lines, c.Pattern, c.Invert)
